@@ -217,7 +217,9 @@ type cacheBucket struct {
 }
 
 func (b cacheBucket) Get(key []byte) []byte {
-	if val := b.mb.Get(key); val != nil {
+	if val, ok := b.mb.db.puts[b.mb.name][string(key)]; ok {
+		return val // put in the overlay, possibly with a nil value
+	} else if val := b.mb.Get(key); val != nil {
 		return val
 	} else if _, deleted := b.mb.db.dels[b.mb.name][string(key)]; deleted {
 		return nil // deleted in the overlay; do not fall through to the stale backing value
